@@ -198,6 +198,6 @@ def run_job(job, ctx):
         W.explore(ctx, m.spec, single["leaf"], 0, m, only=(hist, single["op"]))
         return
     m = Monitor(job["shape"], job["leaf"], job["tier"])
-    n, nops = W.explore(ctx, m.spec, job["leaf"], job["depth"], m, tier=job["tier"])
+    n, nops = W.explore(ctx, m.spec, job["leaf"], job["depth"], m, tier=job["tier"], share_schema=True)
     ctx.sample({"shape": job["shape"], "leaf": job["leaf"], "states": n, "operations_per_state": nops,
                 "example_ops": W.ops_for(m.spec, job["leaf"], job["tier"])[:3]})
